@@ -290,3 +290,13 @@ def refused_for_else_symbolic(a, b):
 
 def refused_float_floordiv(a, b):
     return (a * 0.5) // 2
+
+
+def refused_stale_loop_value(a, b):
+    n = a if 0 <= a <= 5 else 3
+    acc = 0
+    carry = 0
+    for i in range(n):
+        acc = acc + carry          # the value the PREVIOUS iteration left behind
+        carry = b
+    return acc
